@@ -71,7 +71,18 @@ impl UnixAddr {
     #[verifier::external_body]
     pub fn as_pathname(&self) -> (r: Option<&Path>) { unimplemented!() }
 }
-pub mod std { pub mod net {
+#[verifier::external_body]
+pub struct NonZeroUsize { _p: () }
+impl NonZeroUsize { #[verifier::external_body] pub fn get(self) -> (r: usize) ensures r >= 1 { unimplemented!() } }
+pub assume_specification<T, E, U, F: FnOnce(T) -> U>[ Result::<T, E>::map_or ](x: Result<T, E>, default: U, f: F) -> (r: U)
+    requires x matches Ok(t) ==> f.requires((t,)),
+    ensures x is Err ==> r == default, x matches Ok(t) ==> f.ensures((t,), r);
+pub mod std { pub mod thread {
+    use vstd::prelude::*;
+    #[verifier::external_body]
+    pub fn available_parallelism() -> (r: Result<crate::NonZeroUsize, crate::IoError>) { unimplemented!() }
+}
+pub mod net {
     #[verifier::external_body] pub struct Ipv4Addr { _p: () }
     impl Ipv4Addr { #[verifier::external_body] pub fn new(a: u8, b: u8, c: u8, d: u8) -> (r: Ipv4Addr) { unimplemented!() } }
     pub enum IpAddr { V4(Ipv4Addr) }
@@ -245,8 +256,7 @@ impl UserFactory { #[verifier::external_body] pub fn clone(&self) -> (r: UserFac
 pub struct StdSocketAddr { _p: () }
 #[verifier::external_body]
 pub struct AddrsLike { _p: () }
-#[verifier::external_body]
-pub struct MpTcp { _p: () }
+//@extract_type file=actix-server/src/builder.rs item="enum MpTcp"
 #[verifier::external_body]
 pub struct StdTcpListener { _p: () }
 impl StdTcpListener {
@@ -321,6 +331,16 @@ impl ServerWorkerConfig {
         ensures final(self).shutdown_timeout == dur, final(self).max_blocking_threads == old(self).max_blocking_threads, final(self).max_concurrent_connections == old(self).max_concurrent_connections,
     { unimplemented!() }
 }
+impl ServerWorkerConfig {
+    /// `impl Default for ServerWorkerConfig`: the contract unit worker_handles proves of the real text
+    #[verifier::external_body]
+    pub fn default() -> (r: ServerWorkerConfig)
+        ensures 1 <= r.max_blocking_threads <= 512,
+    { unimplemented!() }
+}
+/// tokio::sync::mpsc::unbounded_channel (the command channel: opaque here, unit server_cmd models it)
+#[verifier::external_body]
+pub fn unbounded_channel() -> (r: (Opaque, Opaque)) { unimplemented!() }
 pub struct ServerBuilder {
     pub threads: usize,
     pub token: usize,
@@ -348,6 +368,28 @@ impl ServerBuilder {
     pub open spec fn same_table(&self, o: &ServerBuilder) -> bool {
         self.token == o.token && self.factories == o.factories && self.sockets == o.sockets
     }
+
+//@extract file=actix-server/src/builder.rs item="impl ServerBuilder / fn new" ret=r props=C01,C06 name=builder::new
+//@spec
+    ensures
+        // a fresh builder has an empty, well-formed listener table and at least one worker   [C01]
+        r.wf(), r.token == 0, r.threads >= 1,
+        r.listen_os_signals,        // [C06] SIGINT/SIGTERM/SIGQUIT are handled unless `disable_signals` is called
+        // (the VALUES of the documented defaults — backlog 2048, 25600 connections, 30 s — are not part of any property)
+//@end
+
+//@extract file=actix-server/src/builder.rs item="impl ServerBuilder / fn mptcp" ret=r props=C01 name=builder::mptcp mut_self
+//@spec
+    ensures r.mptcp == mptcp_enabled, r.same_table(&self), r.threads == self.threads, r.backlog == self.backlog, r.exit == self.exit,
+            r.listen_os_signals == self.listen_os_signals, r.worker_config == self.worker_config,
+//@end
+
+//@extract file=actix-server/src/builder.rs item="impl ServerBuilder / fn run" ret=r props=C01,C06 name=builder::run intended_panics
+//@spec
+    ensures
+        // the server is built from exactly this builder, and only when at least one listener is bound   [C01]
+        self.sockets@.len() > 0, r.built_from() == self,
+//@end
 
 //@extract file=actix-server/src/builder.rs item="impl ServerBuilder / fn workers" ret=r props=C01 name=builder::workers mut_self intended_panics
 //@spec
@@ -531,6 +573,26 @@ impl<T> JoinAll<T> {
             forall|i: int| r9_n <= i < self.fut@.len() ==> (old(self).fut@[i] is Result ==> #[trigger] self.fut@[i] == old(self).fut@[i]),
             forall|i: int| 0 <= i < r9_n ==> (old(self).fut@[i] matches JoinFuture::Result(Some(x)) ==> #[trigger] res@[i] == x),
         decreases self.fut@.len() - r9_n,
+//@end
+}
+
+
+/// server.rs `Server`: only what it was built from (unit server_cmd verifies Server::new itself)
+#[verifier::external_body]
+pub struct Server { _p: () }
+impl Server {
+    pub uninterp spec fn built_from(&self) -> ServerBuilder;
+    #[verifier::external_body]
+    pub fn new(builder: ServerBuilder) -> (r: Server) ensures r.built_from() == builder { unimplemented!() }
+//@extract file=actix-server/src/server.rs item="impl Server / fn build" ret=r props=C01 name=server::Server::build
+//@spec
+    ensures r.wf(), r.token == 0, r.listen_os_signals,
+//@end
+}
+impl Default for ServerBuilder {
+//@extract file=actix-server/src/builder.rs item="impl Default for ServerBuilder / fn default" ret=r props=C01 name=builder::default
+//@spec
+    ensures r.wf(), r.token == 0, r.listen_os_signals,
 //@end
 }
 
